@@ -830,6 +830,12 @@ def run(ctx):
             cases.append(json.load(open(os.path.join(corpus, fn)))['case'])
     for _ in range(n):
         cases.append(gen_case(ctx))
+    # stratified: every number of exponentials of the quantifier with admissible pencil parameters
+    for k in (1, 2, 3, 4, 5):
+        for rep in range(ctx.budget(2, 20)):
+            nn = ctx.rng.randint(max(2 * k + 2, 8), 24)
+            cases.append({'what': 'mpm', 'seed': ctx.rng.getrandbits(30), 'k': k, 'n': nn, 'p': ctx.rng.randint(k, nn - k),
+                          'spacing': ctx.rng.choice([[0.35, 0.6], [0.15, 0.3], [0.5, 0.9]])})
     for case in cases:
         ctx.count('what=' + case['what'])
         if case.get('kind'):
